@@ -603,17 +603,30 @@ def xlsx_doc(sheets):
 SHEET_NAMES = ["Zeta", "Alpha", "Mid"]
 
 
-SHEET_ROWS = {"empty": 0, "data": 2, "one-row": 1, "three-rows": 3, "one-cell": -1}
+SHEET_ROWS = {"empty": 0, "data": 2, "one-row": 1, "three-rows": 3, "one-cell": -1, "ragged": -2, "gaps": -3}
 
 
 def _sheet_specs(kinds):
-    """kind -> rows: every row carries a token `cell<sheet>r<row>` (one-cell: a single cell in a single row)"""
+    """kind -> rows: every row carries a token `cell<sheet>r<row>` (one-cell: a single cell in a single row; ragged: an earlier
+    row reaches further right than the last one; gaps: empty cells / an empty row between cells that carry data) -- every
+    string cell `cell...` is a token that has to be found in the unit of its sheet"""
     out = []
     for i, k in enumerate(kinds):
         n = SHEET_ROWS[k]
-        rows = [[f"cell{i}r0"]] if n == -1 else [[f"cell{i}r{r}", r] for r in range(n)]
+        if n == -1:
+            rows = [[f"cell{i}r0"]]
+        elif n == -2:
+            rows = [[f"cell{i}r0"], [f"cell{i}r1", f"cell{i}s1", f"cell{i}t1", f"cell{i}u1"], [f"cell{i}r2", f"cell{i}s2"]]
+        elif n == -3:
+            rows = [[f"cell{i}r0", None, f"cell{i}t0"], [None, None, None], [None, f"cell{i}s2"]]
+        else:
+            rows = [[f"cell{i}r{r}", r] for r in range(n)]
         out.append((SHEET_NAMES[i], rows))
     return out
+
+
+def _cell_tokens(sheets):
+    return {c: i + 1 for i, (_s, rows) in enumerate(sheets) for row in rows for c in row if isinstance(c, str) and c.startswith("cell")}
 
 
 def check_sheets(fmt, kinds):
@@ -628,7 +641,7 @@ def check_sheets(fmt, kinds):
     us = list(c.iterate_units())
     obs = [(u.get_metadata().unit_number, u.get_metadata().sheet_name, u.get_text()) for u in us]
     ok = [(n, nm) for n, nm, _t in obs] == [(k, nm) for k, (nm, _r) in enumerate(sheets, start=1)] \
-        and token_coverage([(n, t) for n, _nm, t in obs], {row[0]: i + 1 for i, (_s, rows) in enumerate(sheets) for row in rows}, "cell") is None \
+        and token_coverage([(n, t) for n, _nm, t in obs], _cell_tokens(sheets), "cell") is None \
         and c.get_full_text() == "\n".join(t for _n, _nm, t in obs).strip()
     if not ok:
         return {"target": f"{fmt}_extractor.py::read_{fmt}", "inputs": {"check": "sheets", "format": fmt, "sheet_kinds": list(kinds), "sheet_names": SHEET_NAMES[:len(kinds)]},
@@ -639,7 +652,7 @@ def check_sheets(fmt, kinds):
 
 def sweep_sheets(fmt):
     for n in range(1, 4):
-        for kinds in itertools.product(["data", "empty", "one-row", "one-cell", "three-rows"] if n < 3 else ["data", "empty", "one-row"], repeat=n):
+        for kinds in itertools.product(["data", "empty", "one-row", "one-cell", "three-rows", "ragged", "gaps"] if n < 3 else ["data", "empty", "one-row"], repeat=n):
             r = check_sheets(fmt, list(kinds))
             if r:
                 return r
@@ -652,7 +665,7 @@ def ods_doc(sheets):
           'xmlns:xlink="http://www.w3.org/1999/xlink" xmlns:svg="urn:oasis:names:tc:opendocument:xmlns:svg-compatible:1.0"')
     tabs = ""
     for name, rows in sheets:
-        body = "".join("<table:table-row>" + "".join(f'<table:table-cell office:value-type="string"><text:p>{c}</text:p></table:table-cell>' for c in r)
+        body = "".join("<table:table-row>" + "".join(f'<table:table-cell office:value-type="string"><text:p>{c}</text:p></table:table-cell>' if c is not None else "<table:table-cell/>" for c in r)
                        + "</table:table-row>" for r in rows)
         tabs += f'<table:table table:name="{name}">{body}</table:table>'
     buf = io.BytesIO()
